@@ -180,6 +180,11 @@ func checkC10(stream []byte) func(x *mcrt.X) *mcrt.Failure {
 	}
 }
 
+// mm is a header-only MSM frame with the multiple-message flag set.
+func mm(t int) []byte {
+	return ref.MSMFrame(&ref.MSMHeader{Type: t, Station: 1, Timestamp: 1000, Multiple: true}, nil, nil, 0)
+}
+
 func smallStreams() (map[string][]byte, []string) {
 	f := ref.Frame([]byte{0x41})
 	g := ref.TypedFrame(1005, 3, nil)
@@ -195,6 +200,10 @@ func smallStreams() (map[string][]byte, []string) {
 		"junk":             []byte("$GPGGA\n"),
 		"1077/8":           ref.TypedFrame(1077, 8, nil),
 		"1077/3+frame":     append(ref.TypedFrame(1077, 3, nil), f...),
+		// an epoch's burst of MSMs with the 'more messages follow' flag set, cut
+		// short: by the end of the input, and inside the next frame
+		"msm-burst-unfinished":       append(append([]byte{}, mm(1077)...), mm(1087)...),
+		"msm-burst-unfinished+trunc": append(append(append([]byte{}, mm(1077)...), mm(1087)...), g[:4]...),
 	}
 	var names []string
 	for n := range m {
@@ -421,7 +430,7 @@ func propC11() *harness.Prop {
 func scenariosC11(tier string) []*mcrt.Scenario {
 	streams, _ := smallStreams()
 	var scs []*mcrt.Scenario
-	for _, sn := range []string{"frame", "frame+frame", "frame+junk+frame", "1077/8", "badcrc+frame"} {
+	for _, sn := range []string{"frame", "frame+frame", "frame+junk+frame", "1077/8", "badcrc+frame", "msm-burst-unfinished", "msm-burst-unfinished+trunc"} {
 		for _, logs := range []bool{false, true} {
 			for _, split := range []bool{false, true} {
 				stream := streams[sn]
